@@ -604,7 +604,7 @@ func TestC10(t *testing.T) {
 	defer finish(rec)
 	rec.Describe("case = one of four targets. unmarshal: a grammar-generated schema document of either draft with 0-3 type confusions (value replaced by null / arbitrary JSON / wrapped in array or object, key renamed to $ref/$id/items/...), truncation, a 3000-deep nesting or one of ~50 hostile snippets (malformed keyword values, dangling references, equality-centric schemas); then Resolve (optionally ValidateDefaults), then Validate and ApplyDefaults on 1-3 instances of any shape in any Go representation. graph: a Schema graph from the reflection-driven generator in wild mode (shared and cyclic subschema pointers, nil children in slices/maps, malformed URIs/regexps/anchors, conflicting fields, bad default bytes), BaseURI empty/absolute/with fragment/garbage/relative/urn, Loader nil/erroring/returning a wrong document/returning the root itself. for: ForType on arbitrary types incl. recursive and mutually recursive pool types and unsupported kinds at any depth, both IgnoreInvalidTypes settings. universe: a C03 universe with loaders that fail every other call, serve rotated documents, return the root, or are nil; odd BaseURIs; fault sets. Oracle: the call returns (recover + 60s deadline); every case is journalled before it runs so a fatal error leaves a replay. Non-trivial: the input got past the first validation layer (Unmarshal succeeded / Resolve succeeded / ForType reached a struct). Distinct = distinct case.",
 		"out of domain and never generated: loaders returning (nil, nil), infinite universes, nil *Schema receivers, non-pointer arguments to ApplyDefaults, non-JSON-shaped instances, and Validate on graphs with an in-place reference cycle (the property's proviso; detected through the verif hook, without hooks Validate runs only on reference-free graphs)")
-	rapid.Check(t, propC10(rec))
+	rapid.Check(t, watched("C10", propC10(rec)))
 }
 
 func init() {
